@@ -12,6 +12,11 @@ use std::convert::TryInto;
 fn parse_xref_section_from_stream(first_id: u32, mut num_entries: usize, width: &[usize], data: &mut &[u8], resolve: &impl Resolve) -> Result<XRefSection> {
     let mut entries = Vec::new();
     let [w0, w1, w2]: [usize; 3] = width.try_into().map_err(|_| other!("invalid xref length array"))?;
+    // an entry that takes no bytes would let /Index or /Size ask for any number of entries out of no data
+    // (the second field, offset or object number, has no default value)
+    if w0.checked_add(w1).and_then(|w| w.checked_add(w2)).map_or(true, |w| w == 0) {
+        bail!("xref stream entries have no width");
+    }
     if num_entries * (w0 + w1 + w2) > data.len() {
         if resolve.options().allow_xref_error {
             warn!("not enough xref data. truncating.");
